@@ -523,6 +523,11 @@ class Fn:
                 if "fn" in v:
                     return ("const", "fn", v["fn"])
                 if "uneval" in v:
+                    lits = v.get("lits") or []
+                    if len(lits) == 1 and not isinstance(lits[0], dict):
+                        return ("const", op[1], lits[0])
+                    if lits:
+                        return ("const", op[1], tuple(l["char"] if isinstance(l, dict) and "char" in l else (l["float"] if isinstance(l, dict) and "float" in l else l) for l in lits))
                     return ("const", op[1], "uneval:" + v["uneval"])
             return ("const", op[1], v)
         return ("unknown",)
